@@ -52,6 +52,17 @@ class Sym:
             return [("lit", c["char"])]
         return [("unknown", "constant %s" % (c.get("dbg") or "")[:30])]
 
+    def opp(self, o, proj, depth=0):
+        c = op_const(o)
+        if c is not None:
+            if proj and proj[0].startswith("as ") and not re.search(r"\b%s\b" % re.escape(proj[0][3:]), str(c.get("dbg") or "")):
+                return None        # a constant of another variant (`None` where the payload of `Some` is asked for)
+            return self.const_atom(c)
+        pl = op_place(o)
+        if pl is None:
+            return [("unknown", "operand")]
+        return self._val(pl["l"], list(pl["p"]) + list(proj), depth)
+
     def op(self, o, depth=0):
         c = op_const(o)
         if c is not None:
@@ -62,45 +73,72 @@ class Sym:
         return self.val(pl["l"], pl["p"], depth)
 
     def val(self, local, proj=(), depth=0):
+        v = self._val(local, proj, depth)
+        return v if v is not None else [("unknown", "no definition reaches this use")]
+
+    def _val(self, local, proj=(), depth=0):
         b = self.b
+        proj = [x for x in (proj or []) if x != "*"]
         if depth > 25:
             return [("unknown", "too deep")]
         if 1 <= local <= b.raw["arg_count"] and not M.real_defs(b, local):
             if re.fullmatch(r"(std::|alloc::)?string::String", b.local_ty(local) or "") and not proj:
                 return [("param", local)] + self.mutations(local, depth)
             return [("param", local)]
-        comp = next((int(x[1:]) for x in proj if re.match(r"^\.\d+$", x)), None)
         defs = [d for d in M.value_defs(b, local) if not b.is_cleanup(d[0])]
         if not defs:
             return [("unknown", "no definition of _%d" % local)]
-        if len(defs) > 1:
-            vals = [self.one(d, comp, depth) for d in defs]
-            if all(v == vals[0] for v in vals):
-                base = vals[0]
-            else:
-                calls, params, _ = M.deep_slice(b, local)
-                names = sorted({M.callee(t) for _, t in calls if M.callee(t)})
-                named = sorted({(c or {}).get("uneval") for v in vals for a in v if a[0] == "named" for c in [{"uneval": a[1]}]})
-                return [("derived", names + named)]
-        else:
-            base = self.one(defs[0], comp, depth)
+        vals = [v for v in (self.one(d, proj, depth) for d in defs) if v is not None]
+        if not vals:
+            return None
+        if len(vals) > 1 and not all(v == vals[0] for v in vals):
+            flat = []
+            for v in vals:
+                v = merge_lits(v)
+                if len(v) == 1 and v[0][0] == "lit":
+                    flat.append(v[0][1])
+                elif len(v) == 1 and v[0][0] == "alts":
+                    flat += v[0][1]
+                elif not v:
+                    flat.append("")
+                else:
+                    flat = None
+                    break
+            if flat is not None:
+                return [("alts", sorted(set(flat)))]
+            calls, params, _ = M.deep_slice(b, local)
+            names = sorted({M.callee(t) for _, t in calls if M.callee(t)})
+            named = sorted({a[1] for v in vals for a in v if a[0] == "named"})
+            return [("derived", names + named)]
+        base = vals[0]
         if re.fullmatch(r"(std::|alloc::)?string::String", b.local_ty(local) or "") and not proj:
             base = base + self.mutations(local, depth)
         return base
 
-    def one(self, d, comp, depth):
+    def one(self, d, proj, depth):
+        """value of one definition, seen through the projection `proj` (tuple components, enum payloads)"""
         b = self.b
         blk, i, dd = d
+        proj = list(proj or [])
         if i != "term":
             rv = dd["rv"]
             k = rv["k"]
             if k in ("use", "cast"):
+                pl = op_place(rv["op"])
+                if pl is not None:
+                    return self._val(pl["l"], list(pl["p"]) + proj, depth + 1)
                 return self.op(rv["op"], depth + 1)
             if k == "ref":
-                return self.val(rv["pl"]["l"], rv["pl"]["p"], depth + 1)
-            if k == "agg" and rv.get("tuple") and comp is not None and comp < len(rv["ops"]):
-                return self.op(rv["ops"][comp], depth + 1)
-            if k == "agg" and rv.get("variant") in ("Some", "Ok") and len(rv["ops"]) == 1:
+                return self._val(rv["pl"]["l"], list(rv["pl"]["p"]) + proj, depth + 1)
+            if k == "agg" and rv.get("tuple") and proj and re.match(r"^\.\d+$", proj[0]) and int(proj[0][1:]) < len(rv["ops"]):
+                return self.opp(rv["ops"][int(proj[0][1:])], proj[1:], depth + 1)
+            if k == "agg" and rv.get("variant") and proj and proj[0] == "as " + rv["variant"] and len(proj) > 1:
+                m = re.search(r"(\d+)$", proj[1])
+                if m and int(m.group(1)) < len(rv["ops"]):
+                    return self.opp(rv["ops"][int(m.group(1))], proj[2:], depth + 1)
+            if k == "agg" and rv.get("variant") and proj and proj[0].startswith("as ") and proj[0] != "as " + rv["variant"]:
+                return None        # another variant: this definition does not reach the use
+            if k == "agg" and rv.get("variant") in ("Some", "Ok") and len(rv["ops"]) == 1 and not proj:
                 return self.op(rv["ops"][0], depth + 1)
             return [("unknown", "rvalue %s" % k)]
         t = dd
